@@ -178,7 +178,7 @@ impl Array {
             None,
             &unrolled.dimensions,
             &output_dimensions,
-            3,
+            2,
             0,
         );
 
